@@ -1,7 +1,113 @@
 import Mutagen.Driver.Util
+import Mutagen.Model.Select
 namespace Mutagen.Driver.C40
+open Mutagen.Driver Mutagen.Model.Select
 
-/-- Model-side handler for one line of the C40 correspondence stream. -/
-def handle (_line : String) : String := "unimplemented"
+/-!
+Lines (fields separated by one space):
+
+* `less <hexA> <hexB>` → `1` / `0` (`fastpath.Less`);
+* `sortc <paths>` / `sortp <paths>` → sorted paths (`core.SortConflicts` on
+  conflict roots / `core.SortProblems` on problem paths);
+* `list <sessions> <query>` → `Manager.List`.
+
+`<paths>` is `.` for the empty list, otherwise comma-separated hex (`-` is the
+empty path). `<sessions>` is `.` or `;`-separated
+`id|name|sec|nanos|labels|c|as|at|bs|bt` (name `-` = empty, labels `-` or
+`k=v&k=v`, the last five are `<paths>`: conflict roots, alpha scan / alpha
+transition / beta scan / beta transition problem paths). `<query>` is
+`<all 0/1>|<specs: - or comma separated>|<selector>` with selector `none`
+(empty string), `bad:<hex of the string>` (unparsable), or `r<style>:<reqs>`
+with reqs `-` or `&`-separated `key~op~values` (op ∈ in notin exists nexists
+gt lt, values `-` or `+`-separated, `_` = empty value).
+
+Answer of `list`: `err:<nomatch|selector|invalid>` or `ok` followed by one
+token per listed state in order: `<index of the session in the line>|<c>|<as>|<at>|<bs>|<bt>`
+with each list printed as `<paths>/<excluded>`.
+-/
+
+def parsePaths (s : String) : Option (List Path) :=
+  if s == "." then some [] else (s.splitOn ",").mapM decHex
+
+def showPaths (ps : List Path) : String :=
+  if ps.isEmpty then "." else ",".intercalate (ps.map encHex)
+
+def parseInt (s : String) : Option Int := s.toInt?
+
+def parseLabels (s : String) : Option Labels :=
+  if s == "-" then some [] else
+  (s.splitOn "&").mapM fun kv =>
+    match kv.splitOn "=" with
+    | [k, v] => some (k, v)
+    | _ => none
+
+def parseSession (s : String) : Option Session :=
+  match s.splitOn "|" with
+  | [id, name, sec, nanos, labels, c, as', at', bs', bt'] => do
+    pure { id := id, name := if name == "-" then "" else name,
+           labels := ← parseLabels labels, sec := ← parseInt sec, nanos := ← parseInt nanos,
+           conflicts := ← parsePaths c, alphaScan := ← parsePaths as', alphaTransition := ← parsePaths at',
+           betaScan := ← parsePaths bs', betaTransition := ← parsePaths bt' }
+  | _ => none
+
+def parseSessions (s : String) : Option (List Session) :=
+  if s == "." then some [] else (s.splitOn ";").mapM parseSession
+
+def parseOp : String → Option Op
+  | "in" => some .in_ | "notin" => some .notIn | "exists" => some .exists_
+  | "nexists" => some .doesNotExist | "gt" => some .gt | "lt" => some .lt | _ => none
+
+def parseReq (s : String) : Option Req :=
+  match s.splitOn "~" with
+  | [k, op, vs] => do
+    let vals := if vs == "-" then [] else (vs.splitOn "+").map fun v => if v == "_" then "" else v
+    pure { key := k, op := ← parseOp op, values := vals }
+  | _ => none
+
+def parseSelector (s : String) : Option Selector :=
+  if s == "none" then some .absent
+  else if s.startsWith "bad:" then some .bad
+  else match s.splitOn ":" with
+    | [_style, rs] =>
+      if rs == "-" then some (.reqs []) else do
+        let l ← (rs.splitOn "&").mapM parseReq
+        pure (.reqs l)
+    | _ => none
+
+def parseQuery (s : String) : Option Selection :=
+  match s.splitOn "|" with
+  | [a, specs, sel] => do
+    pure { all := a == "1", specs := if specs == "-" then [] else (specs.splitOn ",").map (fun s => if s == "_" then "" else s), selector := ← parseSelector sel }
+  | _ => none
+
+def showErr : Err → String
+  | .noMatch => "err:nomatch" | .badSelector => "err:selector" | .invalid => "err:invalid"
+
+def indexOf (sessions : List Session) (id : String) : Nat :=
+  (sessions.findIdx? (·.id == id)).getD sessions.length
+
+def showList (l : List Path × Nat) : String := s!"{showPaths l.1}/{l.2}"
+
+def showListed (sessions : List Session) (l : Listed) : String :=
+  s!"{indexOf sessions l.id}|{showList l.conflicts}|{showList l.alphaScan}|{showList l.alphaTransition}|{showList l.betaScan}|{showList l.betaTransition}"
+
+def handle (line : String) : String :=
+  match fields line with
+  | ["less", a, b] =>
+    match decHex a, decHex b with
+    | some a, some b => if less a b then "1" else "0"
+    | _, _ => "bad-op"
+  | ["sortc", ps] | ["sortp", ps] =>
+    match parsePaths ps with
+    | some ps => showPaths (sortPaths ps)
+    | none => "bad-op"
+  | ["list", ss, q] =>
+    match parseSessions ss, parseQuery q with
+    | some sessions, some sel =>
+      match list sessions sel with
+      | .error e => showErr e
+      | .ok ls => " ".intercalate ("ok" :: ls.map (showListed sessions))
+    | _, _ => "bad-op"
+  | _ => "bad-op"
 
 end Mutagen.Driver.C40
